@@ -1634,11 +1634,19 @@ impl Kanata {
                             }
                         }
                         CustomAction::DynamicMacroPlay(macro_id) => {
-                            play_macro(
-                                *macro_id,
-                                &mut self.dynamic_macro_replay_state,
-                                &self.dynamic_macros,
-                            );
+                            // A macro cannot contain itself: playing the macro that is being
+                            // recorded is ignored. The replay of the new recording refuses this
+                            // item as a recursion, so playing the previous recording here would
+                            // make typing and replaying differ.
+                            if is_recording_macro(&self.dynamic_macro_record_state, *macro_id) {
+                                log::warn!("ignoring play of macro {macro_id}: it is being recorded");
+                            } else {
+                                play_macro(
+                                    *macro_id,
+                                    &mut self.dynamic_macro_replay_state,
+                                    &self.dynamic_macros,
+                                );
+                            }
                         }
                         CustomAction::CancelMacroOnNextPress(duration) => {
                             self.macro_on_press_cancel_duration = *duration;
